@@ -483,6 +483,34 @@ Definition lstep (p : list ltable) (o : op) : lres :=
               end
           end
       end
+  | ODelCol ti name =>
+      (* del dm[name]: the name is dropped, or ValueError *)
+      match nth_error p ti with
+      | None => LSkip
+      | Some t =>
+          match lookup name (l_names t) with
+          | None => LErr
+          | Some _ => LUpd ti {| l_fam := l_fam t; l_rowid := l_rowid t;
+                                 l_names := filter (fun '(n, _) => negb (String.eqb n name)) (l_names t);
+                                 l_cols := l_cols t; l_sorted := l_sorted t; l_dflt := l_dflt t |}
+          end
+      end
+  | OSetSorted ti b =>
+      match nth_error p ti with
+      | None => LSkip
+      | Some t => LUpd ti {| l_fam := l_fam t; l_rowid := l_rowid t; l_names := l_names t; l_cols := l_cols t;
+                             l_sorted := b; l_dflt := l_dflt t |}
+      end
+  | OSetColKind ti name k =>
+      (* dm[name] = <column type>: a new column object of that type holding its default cells *)
+      match nth_error p ti with
+      | None => LSkip
+      | Some t =>
+          LUpd ti (lbind t name (List.length (l_cols t))
+                         (l_cols t ++ [{| lc_kind := k; lc_rowid := idx_of_list (ia (l_rowid t));
+                                          lc_cells := repeat (default_cell k) (nrows_l t);
+                                          lc_owner := true; lc_tc := true |}]))
+      end
   | OSetColFromCol ti name t2i name2 =>
       (* dm[name] = dm2[name2]: a column of a pool table belongs to that table and is one of its columns *)
       match nth_error p ti, nth_error p t2i with
